@@ -375,11 +375,12 @@ type replayDoc struct {
 }
 
 func configs(thorough bool) []ctrlrun.Config {
+	// order: the two extremes first, so that a run cut short by its deadline has covered them
 	base := []ctrlrun.Config{
+		{Name: "clustered+replicated", DB: dbName, TTLDays: 7, Cluster: "c1", Cloud: true},
 		{Name: "single", DB: dbName, TTLDays: 7},
 		{Name: "replicated", DB: dbName, TTLDays: 7, Cloud: true},
 		{Name: "clustered", DB: dbName, TTLDays: 7, Cluster: "c1"},
-		{Name: "clustered+replicated", DB: dbName, TTLDays: 7, Cluster: "c1", Cloud: true},
 	}
 	if !thorough {
 		return base
@@ -673,7 +674,7 @@ func replay(r *ev.Run) {
 }
 
 func main() {
-	r := ev.Start("C18", "model_checking", 60*time.Second, 15*time.Minute)
+	r := ev.Start("C18", "model_checking", 75*time.Second, 15*time.Minute)
 	r.Rule = "explicit-state BFS: a state is (canonical catalogue of the fake server incl. rows of ver/settings, set of completed migration scripts); " +
 		"a transition is one real run of ctrl.Init (InitDB + UpgradeAll → Update) with no fault or one fault (statement index × {error before effect, " +
 		"effect then error, effect then kill}); from every reached state the fault-free restart and an extra up-to-date run are checked; " +
